@@ -189,13 +189,23 @@ def strat_part(tier):
             "flags": st.lists(st.booleans(), min_size=7, max_size=7),
             "musical": st.booleans(),
             "voice_mask": st.lists(st.booleans(), max_size=6),
+            # voices numbered from 0 (a stated voice 0 is a value, not a missing voice)
+            "voice_base": st.sampled_from([1, 1, 0]),
         }
     )
 
 
+def shift_voices(ps, base):
+    if base == 1:
+        return ps
+    ps = dict(ps)
+    ps["notes"] = [dict(n, voice=(n["voice"] - 1 + base) if n.get("voice") is not None else None) for n in ps["notes"]]
+    return ps
+
+
 def oracle_part(spec):
     o = Outcome()
-    ps = apply_missing_voice(spec["part"], spec["voice_mask"])
+    ps = apply_missing_voice(shift_voices(spec["part"], spec.get("voice_base", 1)), spec["voice_mask"])
     part, _ = build_part(ps)
     if spec["musical"]:
         call(part.use_musical_beat)
@@ -216,6 +226,7 @@ def oracle_part(spec):
     o.cls("division-change", multi_div)
     o.cls("missing-voice", any(n.get("voice") is None for n in ps["notes"] if n["kind"] in ("note", "grace")))
     o.cls("missing-staff", any(n.get("staff") is None for n in ps["notes"]))
+    o.cls("voice-zero-with-others", len(set(n.get("voice") for n in ps["notes"] if n["kind"] in ("note", "grace")) - {None}) > 1 and any(n.get("voice") == 0 for n in ps["notes"] if n["kind"] in ("note", "grace")))
     for k, v in flags.items():
         o.cls(k, v)
     kw = {k: True for k, v in flags.items() if v}
